@@ -22,7 +22,7 @@ theorem read_run (r : DR) (inp : Bytes) (k : Nat) :
        (run (read r inp k).1.state (read r inp k).2.2.1).2.2) ∧
     ((read r inp k).2.2.2 = .eof → (read r inp k).1.state = .eof) := by
   unfold read
-  by_cases h0 : (r.limited && r.n == 0) = true
+  by_cases h0 : (r.limited && r.n == 0 && r.state != St.eof) = true
   · simp only [h0, if_true]
     by_cases hm : (r.state == St.bol && inp.take 3 == DataReader.marker) = true
     · simp only [hm, if_true]
@@ -113,7 +113,16 @@ theorem sched_eof_terminated (sizes : List Nat) (r : DR) (inp : Bytes) (hr : r.s
 
 theorem read_budget (r : DR) (inp : Bytes) (k : Nat) (hl : r.limited = true) :
     (read r inp k).1.limited = true ∧ (read r inp k).2.1.length + (read r inp k).1.n = r.n := by
+  by_cases hs : r.state = St.eof
+  · -- a reader that has reported end-of-file: nothing is read, nothing is charged
+    have hrl : ∀ j, readLoop St.eof inp j = (St.eof, [], inp) := by
+      intro j; cases j <;> simp [readLoop]
+    unfold read
+    simp only [hs, bne_self_eq_false, Bool.and_false, Bool.false_eq_true, if_false, hrl, hl, if_true, List.length_nil, Nat.sub_zero]
+    exact ⟨trivial, by simp⟩
+  have hne : (r.state != St.eof) = true := by simpa using hs
   unfold read
+  simp only [hne, Bool.and_true]
   by_cases hn : r.n = 0
   · simp only [hl, hn, beq_self_eq_true, Bool.and_self, if_true]
     split <;> simp [hl, hn]
@@ -148,6 +157,8 @@ theorem read_over (r : DR) (inp : Bytes) (k : Nat) (o rest0 : Bytes)
     ((read r inp k).2.2.2 = .more ∧ ∃ o', run (read r inp k).1.state (read r inp k).2.2.1 = (.eof, o', rest0) ∧
         Boundary (read r inp k).1.state ∧ (read r inp k).1.limited = true ∧ (read r inp k).1.n < o'.length) := by
   unfold read
+  have hne : (r.state != St.eof) = true := by rcases hB with h | h | h <;> simp [h]
+  simp only [hne, Bool.and_true]
   by_cases hn : r.n = 0
   · left
     simp only [hl, hn, beq_self_eq_true, Bool.and_self, if_true]
